@@ -44,6 +44,18 @@ def key_canonicity(rep: Report, prog: Program) -> None:
                 found = True
             p = getattr(p, "_parent", None)
         normalised = normalised and found
+    # an ordering key that can tie leaves tied factors in insertion order: a*b and b*a get different keys
+    for c in [n for n in ast.walk(fn) if isinstance(n, ast.Call) and isinstance(n.func, ast.Name) and n.func.id == "sorted"]:
+        kw = {k.arg: k.value for k in c.keywords}
+        if "key" not in kw:
+            continue
+        k = kw["key"]
+        body = k.body if isinstance(k, ast.Lambda) else None
+        injective = body is not None and any(isinstance(x, ast.Call) and isinstance(x.func, ast.Name) and x.func.id == "id" for x in ast.walk(body))
+        rep.check("R02.1", "Unit._build_key:order-key", injective,
+                  f"the factors of the intern key are ordered by `{ast.unparse(k)[:60]}`, which is not the identity of the factor: two different base units can "
+                  "tie (symbols that differ only in case, equal names), a stable sort then keeps operand order, and a*b and b*a intern separately",
+                  fi.where(c))
     rep.check("R02.1", "Unit._build_key:order", normalised,
               "the factor part of the intern key is built from factors.items() without an order-normalising call "
               "(sorted / frozenset): dict insertion order leaks into the key and A*B and B*A intern separately",
@@ -277,8 +289,20 @@ def stable_hash(rep: Report, prog: Program, resolver: Resolver, rid: str) -> Non
                 fn = prog.functions[ci.methods[d]]
                 me = fn.params()[0]
                 hashed |= {a.attr for a in ast.walk(fn.node) if isinstance(a, ast.Attribute) and isinstance(a.value, ast.Name) and a.value.id == me}
-        if not hashed:
+        if not hashed and not any(d in ci.methods for d in ("__hash__", "__eq__")):
             rep.ok(rid, f"{cls}:identity-hash", note="no __hash__/__eq__ override: identity semantics")
+            continue
+        # an override must be exactly the structural key (anything coarser identifies different interned objects wherever
+        # they are used as dict keys - a Prefix is part of every Unit key)
+        KEY = {"Dimension": {"exponents"}, "Prefix": {"base", "exponent"}, "Unit": {"prefix", "factors"},
+               "Logarithm": {"base", "prefix"}, "LogarithmicUnit": {"logarithm", "reference"}}[cls]
+        calls = sorted({x.func.attr for d in ("__hash__", "__eq__") if d in ci.methods for x in ast.walk(prog.functions[ci.methods[d]].node)
+                        if isinstance(x, ast.Call) and isinstance(x.func, ast.Attribute) and isinstance(x.func.value, ast.Name)
+                        and x.func.value.id in (prog.functions[ci.methods[d]].params()[0], prog.functions[ci.methods[d]].params()[-1])})
+        if calls or hashed - KEY - {"__class__"}:
+            rep.fail(rid, f"{cls}:coarse-equality", f"{cls} overrides __eq__/__hash__ through {calls or sorted(hashed - KEY)} instead of its interning key "
+                     f"{sorted(KEY)}: different interned {cls} objects can compare equal (floats underflow, round, tie), and every table keyed by them - "
+                     "Unit._known holds the prefix object in its key - then returns the wrong one", f"{ci.path}:{ci.node.lineno}")
             continue
         mutated: Dict[str, str] = {}
         for q, fi in prog.functions.items():
